@@ -553,7 +553,7 @@ func runUnpack(data io.Reader, dst string, allow []string) (out unpackOutcome) {
 	select {
 	case o := <-done:
 		return o
-	case <-time.After(20 * time.Second):
+	case <-time.After(caseTimeout):
 		return unpackOutcome{class: "timeout", timeout: true}
 	}
 }
